@@ -1,3 +1,132 @@
-/- C12: property theorems (stub, not yet built) -/
+/-
+C12 — Label-requirement algebra agrees with set semantics.
+
+Property theorems only; lemmas are in `Karp/Proofs/ReqLemmas.lean` and `Karp/Proofs/AtoiUniverse.lean`.
+Model: `Karp/Model/Req.lean` (Requirement / Requirements).  Spec: `Karp/Spec/K8sSelector.lean`.
+All theorems quantify over every requirement / operand / value (no size bounds); values are arbitrary
+strings, integers are parsed exactly as `strconv.Atoi` does.
+-/
+import Karp.Proofs.ReqLemmas
+
 namespace Karp.C12
+open Karp.Req Karp.Spec.K8s
+
+/-! ## Fact expectations over the regenerated label tables -/
+
+/-- the documented alias normalisation (`NormalizedLabels`): beta zone/region/arch/os/instance-type labels -/
+theorem fact_normalized_labels :
+    Karp.Gen.Labels.normalizedLabels =
+      [("beta.kubernetes.io/arch", "kubernetes.io/arch"),
+       ("beta.kubernetes.io/instance-type", "node.kubernetes.io/instance-type"),
+       ("beta.kubernetes.io/os", "kubernetes.io/os"),
+       ("failure-domain.beta.kubernetes.io/region", "topology.kubernetes.io/region"),
+       ("failure-domain.beta.kubernetes.io/zone", "topology.kubernetes.io/zone")] := by decide
+
+/-- no value normalisation is registered in core (the model's `normalizeValue` is the identity) -/
+theorem fact_no_value_normalization : Karp.Gen.Labels.normalizedLabelValues = [] := by decide
+
+/-- every alias maps onto a well-known label, and no alias target is itself an alias (normalisation is idempotent) -/
+theorem fact_normalized_targets_well_known :
+    Karp.Gen.Labels.normalizedLabels.all (fun p =>
+      Karp.Gen.Labels.wellKnownLabels.contains p.2 && (Karp.Gen.Labels.normalizedLabels.lookup p.2).isNone) = true := by decide
+
+theorem fact_supported_operators :
+    Karp.Gen.Labels.supportedNodeSelectorOps = ["DoesNotExist", "Exists", "Gt", "Gte", "In", "Lt", "Lte", "NotIn"] := by decide
+
+/-! ## Constructors -/
+
+/-- **C12_new** — a requirement built from any validated node-selector operator admits exactly the label
+    values Kubernetes admits (`Gt MaxInt` / `Lt MinInt` match nothing; non-integer and out-of-range values
+    never satisfy a bound). -/
+theorem C12_new (key : String) (op : Op) (mv : Option Int) (vals : List Val) (r : Req) (v : Val)
+    (hvalid : validOperands op vals = true) (h : Req.new key op mv vals = .ok r) :
+    r.has v = k8sMatch op vals (some v) :=
+  has_new key op mv vals r v hvalid h
+
+/-- constructors normalise alias keys through the generated table -/
+theorem C12_normalize (key : String) (op : Op) (mv : Option Int) (vals : List Val) (r : Req)
+    (h : Req.new key op mv vals = .ok r) : r.key = normalizeKey key := by
+  cases op <;> simp only [Req.new] at h
+  case in_ | notIn | exists_ | doesNotExist | other =>
+    all_goals (simp only [pure, Except.pure, Except.ok.injEq] at h; subst h; rfl)
+  all_goals
+    cases vals with
+    | nil => simp at h
+    | cons n rest =>
+      simp only [List.map_cons] at h
+      first
+        | (simp only [pure, Except.pure, Except.ok.injEq] at h; subst h; rfl)
+        | (split at h <;> simp only [pure, Except.pure, Except.ok.injEq] at h <;> subst h <;> rfl)
+
+/-- the constructor yields a well-formed requirement, whatever the operands -/
+theorem C12_new_wf (key : String) (op : Op) (mv : Option Int) (vals : List Val) (r : Req)
+    (h : Req.new key op mv vals = .ok r) : r.WF := wf_new key op mv vals r h
+
+/-! ## Intersection -/
+
+/-- **C12_inter** — the intersection admits exactly the values both operands admit (all requirement pairs). -/
+theorem C12_inter (r q : Req) (v : Val) : (r.inter q).has v = (r.has v && q.has v) := has_inter r q v
+
+/-- `minValues` of an intersection is the larger of the two floors -/
+theorem C12_inter_minValues (r q : Req) : (r.inter q).minValues = maxOpt r.minValues q.minValues :=
+  minValues_inter r q
+
+theorem C12_inter_wf (r q : Req) (hr : r.WF) (hq : q.WF) : (r.inter q).WF := wf_inter r q hr hq
+
+/-- commutative, associative, idempotent with respect to the admitted sets -/
+theorem C12_inter_comm (r q : Req) (v : Val) : (r.inter q).has v = (q.inter r).has v := by
+  rw [has_inter, has_inter, Bool.and_comm]
+
+theorem C12_inter_assoc (a b c : Req) (v : Val) :
+    ((a.inter b).inter c).has v = (a.inter (b.inter c)).has v := by
+  simp only [has_inter, Bool.and_assoc]
+
+theorem C12_inter_idem (r : Req) (v : Val) : (r.inter r).has v = r.has v := by
+  rw [has_inter, Bool.and_self]
+
+/-! ## Overlap -/
+
+/-- **C12_overlap** — the quick overlap test holds exactly when some value is admitted by both
+    requirements, i.e. exactly when the intersection admits a value. -/
+theorem C12_overlap (r q : Req) (hr : r.boundsInRange) (hq : q.boundsInRange) :
+    r.hasIntersection q = true ↔ ∃ v, (r.inter q).has v = true := by
+  rw [hasIntersection_iff r q hr hq]
+  constructor
+  · rintro ⟨v, h1, h2⟩; exact ⟨v, by rw [has_inter, h1, h2]; rfl⟩
+  · rintro ⟨v, h⟩
+    rw [has_inter, Bool.and_eq_true] at h
+    exact ⟨v, h.1, h.2⟩
+
+theorem C12_overlap_comm (r q : Req) (hr : r.boundsInRange) (hq : q.boundsInRange) :
+    r.hasIntersection q = q.hasIntersection r := by
+  rw [Bool.eq_iff_iff, hasIntersection_iff r q hr hq, hasIntersection_iff q r hq hr]
+  constructor <;> (rintro ⟨v, h1, h2⟩; exact ⟨v, h2, h1⟩)
+
+/-! ## Compatibility -/
+
+/-- **C12_compatible** — `A.Compatible(B, allowUndefined U)` succeeds exactly when, key by key of `B`, some
+    (possibly absent) label value that the node side `A` may end up with is accepted by `B`'s requirement:
+    a defined key contributes the values its requirement admits (or absence, if its operator is
+    `NotIn`/`DoesNotExist`); an undefined key may take any value when it is in `U` (well-known labels)
+    and stays absent otherwise. -/
+theorem C12_compatible (A B : Reqs) (U : List String)
+    (hA : ∀ k a, A.lookup k = some a → a.boundsInRange) (hB : ∀ p ∈ B, p.2.WF) :
+    A.compatible B U = true ↔
+      ∀ p ∈ B, ∃ x : Option Val, nodeAllows A U p.1 x = true ∧ p.2.admits x = true :=
+  compatible_iff A B U hA hB
+
+/-! ## Non-vacuity -/
+
+def exA : Req := { key := "k", complement := true, values := ["5"], gte := some 3 }      -- NotIn [5] ∩ Gt 2
+def exB : Req := { key := "k", complement := false, values := ["4", "5", "x"] }           -- In [4,5,x]
+
+example : (Req.new "k" .gt none ["2"]).toOption = some { key := "k", complement := true, values := [], gte := some 3 } := by decide
+example : (Req.new "failure-domain.beta.kubernetes.io/zone" .in_ none ["z"]
+    |>.toOption) = some { key := "topology.kubernetes.io/zone", complement := false, values := ["z"] } := by decide
+example : exA.WF ∧ exB.WF :=
+  ⟨⟨⟨by intro g h; simp [exA] at h; subst h; decide, by intro g h; simp [exA] at h⟩, rfl, by simp [exA]⟩,
+   ⟨⟨by intro g h; simp [exB] at h, by intro g h; simp [exB] at h⟩, rfl, fun _ => ⟨rfl, rfl⟩⟩⟩
+example : (exA.inter exB).values = ["4"] ∧ exA.hasIntersection exB = true ∧ (exA.inter exB).has "4" = true := by decide
+example : Reqs.compatible [("k", exB)] [("k", exA)] [] = true ∧ Reqs.compatible [] [("j", exB)] [] = false := by decide
+
 end Karp.C12
